@@ -85,7 +85,7 @@ def predicates(ctx, desc, cname, method, name_hint, x, steps, seen):
             return ctx.violation('forward-below:%s' % cname, "method='forward' evaluates f at a coordinate below x", dict(desc, point=re.tolist()))
         if method == 'backward' and np.any(dre > 0):
             return ctx.violation('backward-above:%s' % cname, "method='backward' evaluates f at a coordinate above x", dict(desc, point=re.tolist()))
-        if method == 'multicomplex' or (method == 'complex' and name_hint == '_complex'):
+        if method == 'multicomplex' or (method == 'complex' and (name_hint == '_complex' or (desc.get('n') == 1 and desc.get('order', 9) < 4))):
             if np.any(dre != 0):
                 return ctx.violation('real-part-moved:%s:%s' % (cname, method), 'method=%r changes the real part of an argument' % method, dict(desc, point=re.tolist()))
         if method in ('central', 'forward', 'backward') and np.any(im != 0):
@@ -116,7 +116,11 @@ def run(ctx):
     rng = ctx.rng(1)
     sr, si, sq2 = float(fdm._SQRT_J.real), float(fdm._SQRT_J.imag), float(np.sqrt(2.0))
     cases, descs = [], []
-    for k in range(ctx.n(500, 5000)):
+    # a small deterministic grid first (every method x n 1..4 x order 1..4 for Derivative, the complex-step orders 1..4 for Jacobian / Gradient), then random configurations
+    grid = [('Derivative', m_, n_, o_, 1) for m_ in ('central', 'forward', 'backward', 'complex', 'multicomplex') for n_ in (1, 2, 3, 4) for o_ in (1, 2, 3, 4)
+            if not (m_ == 'multicomplex' and n_ > 2)]
+    grid += [(c_, 'complex', 1, o_, 2) for c_ in ('Jacobian', 'Gradient') for o_ in (1, 2, 3, 4)]
+    for k in range(-len(grid), ctx.n(500, 5000)):
         cname = ['Derivative', 'Jacobian', 'Gradient', 'Hessdiag', 'Hessian'][k % 5]
         method = str(rng.choice(['central', 'forward', 'backward', 'complex', 'multicomplex'] + (['central2'] if cname == 'Hessian' else [])))
         dim = int(rng.integers(1, 6))
@@ -127,6 +131,9 @@ def run(ctx):
             n = 1 if cname in ('Jacobian', 'Gradient') else 2
         order = int(rng.integers(1, 9))
         gen_kind = str(rng.choice(['default', 'default', 'min', 'max', 'scalar']))
+        if k < 0:
+            cname, method, n, order, dim = grid[k + len(grid)]
+            gen_kind = 'default'
         if gen_kind in ('min', 'max', 'scalar') and cname == 'Derivative' and n + order > 8:
             gen_kind = 'default'
         fo = bool(rng.random() < 0.3)
@@ -155,7 +162,7 @@ def run(ctx):
             '; '.join(ptlit(p) for p in seen)))
         descs.append(dict(desc, evaluations=len(seen), stencil=name_hint))
         ctx.count(1, (cname, method, name_hint, gen_kind == 'default', min(dim, 3)))
-        if k < 3:
+        if 0 <= k < 3:
             ctx.sample(dict(desc, evaluations=len(seen), first_points=[[list(t) for t in p] for p in seen[:3]]))
     items = [('C05_%d' % s, HDR + 'Definition cases := [\n' + ';\n'.join(cases[s:s + 60]) + '].\nEval vm_compute in (List.length cases, failing ok_points cases).\n')
              for s in range(0, len(cases), 60)]
